@@ -11,6 +11,7 @@ Tie to the source:
     message and random long ones, given as list / bytes / bytearray.
 """
 import importlib
+import os
 import sys
 
 from .common import coq_N, coq_list, shards
@@ -139,6 +140,43 @@ def oracle_search(mod, ctx, msgs):
     return out
 
 
+
+def translate_loop(repo):
+    """the byte loop of crc7(), read from the source (fail-closed):
+         csum = 0 ; for d in data: csum = _crc7_table[d ^ csum] ; return csum
+       -> fold_left (fun csum d => nth (N.to_nat (N.lxor d csum)) T 0) data 0"""
+    import ast
+    tree = ast.parse(open(os.path.join(repo, "robotpy_ext/misc/crc7.py")).read())
+    fs = [n for n in tree.body if isinstance(n, ast.FunctionDef) and n.name == "crc7"]
+    if len(fs) != 1 or fs[0].decorator_list:
+        raise ValueError("crc7 is not a plain module-level function")
+    f = fs[0]
+    if [a.arg for a in f.args.args] != ["data"] or f.args.vararg or f.args.kwarg or f.args.defaults:
+        raise ValueError("signature of crc7 is not (data)")
+    body = [st for st in f.body if not (isinstance(st, ast.Expr) and isinstance(st.value, ast.Constant))]
+    U = ast.unparse
+    if len(body) != 3:
+        raise ValueError("crc7 has %d statements, expected: csum = 0; for d in data: ...; return csum" % len(body))
+    a, loop, ret = body
+    if not (isinstance(a, ast.Assign) and U(a) == "csum = 0"):
+        raise ValueError("first statement is %r" % U(a))
+    if not (isinstance(loop, ast.For) and U(loop.target) == "d" and U(loop.iter) == "data" and not loop.orelse and len(loop.body) == 1):
+        raise ValueError("loop header/body: %r" % U(loop)[:80])
+    st = loop.body[0]
+    if not (isinstance(st, ast.Assign) and U(st.targets[0]) == "csum" and isinstance(st.value, ast.Subscript)
+            and U(st.value.value) == "_crc7_table" and isinstance(st.value.slice, ast.BinOp)
+            and isinstance(st.value.slice.op, ast.BitXor)):
+        raise ValueError("loop body is %r, expected csum = _crc7_table[<d ^ csum>]" % U(st))
+    ops = sorted([U(st.value.slice.left), U(st.value.slice.right)])
+    if ops != ["csum", "d"]:
+        raise ValueError("table index is %r" % U(st.value.slice))
+    if not (isinstance(ret, ast.Return) and U(ret) == "return csum"):
+        raise ValueError("last statement is %r" % U(ret))
+    l, r = U(st.value.slice.left), U(st.value.slice.right)
+    return ("Definition gen_crc7 (T : list N) (data : list N) : N :=\n"
+            "  fold_left (fun csum d => nth (N.to_nat (N.lxor %s %s)) T 0%%N) data 0%%N.\n" % (l, r))
+
+
 def run(ctx):
     ctx.assumptions.append("C20: Python list indexing and int xor as modelled by nth/N.lxor; inputs are bytes 0..255")
     ctx.prove()
@@ -169,6 +207,20 @@ Print Assumptions impl_burst7.
         rc, out = ctx.coq_file("Gen_C20", inst)
         ctx.obligation("regen:table_ok gen_table (256 entries re-proved) + instantiated theorems",
                        rc == 0 and "Closed under the global context" in out, out)
+    # ---- regenerated code: the byte loop as the source has it now ------
+    try:
+        loop = translate_loop(os.environ.get("VERIF_REPO", "/repo"))
+        ctx.obligation("regen:crc7() has the shape `csum = 0; for d in data: csum = _crc7_table[d ^ csum]; return csum`", True, "")
+        rc, out = ctx.coq_file("Gen_crc7", "From Coq Require Import NArith List.\nFrom RV Require Import CRC.Model.\n" + loop +
+                               "Lemma fold_ext (f g : N -> N -> N) : (forall a b, f a b = g a b) -> forall l a, fold_left f l a = fold_left g l a.\n"
+                               "Proof. intros H l; induction l as [|x l IH]; intros a; cbn; [reflexivity | rewrite H; apply IH]. Qed.\n"
+                               "Lemma src_crc7 : forall T data, gen_crc7 T data = crc_table T data.\n"
+                               "Proof. intros T data; unfold gen_crc7, crc_table; apply fold_ext; intros a b;\n"
+                               "  first [reflexivity | rewrite N.lxor_comm; reflexivity]. Qed.\n")
+        ctx.obligation("regen:Gen_crc7 (the loop translated from the source == CRC.Model.crc_table, for every table and message)",
+                       rc == 0, out[-800:])
+    except (ValueError, OSError, SyntaxError, AttributeError, IndexError) as e:
+        ctx.obligation("regen:crc7() has the shape `csum = 0; for d in data: csum = _crc7_table[d ^ csum]; return csum`", False, str(e))
     # ---- correspondence of the byte loop -----------------------------
     msgs = gen_messages(ctx)
     cases = []
